@@ -1,8 +1,10 @@
 (* C10 -- property theorems only.  Each is closed by `exact <lemma>`; axioms are
    printed by the audit step of bin/check (Print Assumptions per theorem). *)
 From Coq Require Import ZArith Bool List.
-From SV Require Import Common.GoInt C10.Model C10.Spec C10.ProofsInt.
+From Coq Require Floats.SpecFloat.
+From SV Require Import Common.GoInt C10.Model C10.Spec C10.ProofsInt C10.ProofsRange C10.ProofsSlice C10.ProofsFloat C10.ProofsText.
 Import ListNotations.
+Import Floats.SpecFloat.
 Open Scope Z_scope.
 
 (* ------------------------------------------------------------------ integers *)
@@ -105,3 +107,183 @@ Example arith_premises_hold :
   Binary union_impl MUL x x = Some (Big 4611686014132420609) /\
   Binary union_impl LSH x (Small 512) = None /\ Binary union_impl FLOORDIV x (Small 0) = None.
 Proof. vm_compute. repeat split; discriminate. Qed.
+
+(* ------------------------------------------------------------------ range, enumerate *)
+
+(* range(...) as computed by range_ / rangeLen in Go int64 / uint64 arithmetic
+   (wrap-around written out in the model), for ALL integer arguments: it fails
+   when an argument is not a machine int, the step is zero or the number of
+   elements exceeds MaxInt64, and otherwise its length IS the mathematical
+   length -- no guard, the uint computation cannot wrap (after fix 049fe9c). *)
+Theorem range_len_exact :
+  forall start stop step,
+    range_ [start; stop; step] =
+      (if negb (in_int64 start && in_int64 stop && in_int64 step) then Err
+       else if step =? 0 then Err
+       else if max_int64 <? seq_len start stop step then Err
+       else Ok {| r_start := start; r_stop := stop; r_step := step; r_len := seq_len start stop step |}) /    range_ [stop] = range_ [0; stop; 1] /\ range_ [start; stop] = range_ [start; stop; 1].
+Proof.
+  intros. split; [exact (range3_exact start stop step)|]. split; reflexivity.
+Qed.
+
+(* the specification's length is the number of elements: i-th element is before stop iff i < length *)
+Theorem seq_len_counts :
+  forall start stop step i, step <> 0 -> 0 <= i ->
+    (i < seq_len start stop step <-> before_stop stop step (seq_at start step i)).
+Proof. exact seq_len_char. Qed.
+
+(* indexing (incl. negative indices and the 32-bit index limit), for every constructed range: exact or error *)
+Theorem range_index_exact :
+  forall args r y, range_ args = Ok r ->
+    range_getIndex r y =
+      if negb (in_int32 y) then Err
+      else let i := if y <? 0 then y + r_len r else y in
+           if (0 <=? i) && (i <? r_len r) then Ok (seq_at (r_start r) (r_step r) i) else Err.
+Proof. intros args r y H. apply range_getIndex_exact. exact (range_wf_of_range_ args r H). Qed.
+
+(* iteration yields exactly the mathematical sequence, in order, whatever its length *)
+Theorem range_iterate_exact :
+  forall args r fuel, range_ args = Ok r -> (Z.to_nat (r_len r) <= fuel)%nat ->
+    range_iterate fuel r 0 = seq_list (r_start r) (r_stop r) (r_step r).
+Proof. intros args r fuel H. apply range_iterate_exact. exact (range_wf_of_range_ args r H). Qed.
+
+(* membership: x in range(...) for an int x of ANY magnitude and for floats, in
+   both representations: an int is a member iff it is an element; a float iff it
+   is integral and its value is an element; NaN / infinities are rejected
+   (after fixes a97db64 and bb40dc5; refutation of the old code in History.v) *)
+Theorem range_has_exact :
+  forall I, impl_ok I -> forall args r y, range_ args = Ok r ->
+    match y with NFloat f => valid_float f = true | NInt _ => True end ->
+    range_has I r y =
+      match spec_range_has (r_start r) (r_stop r) (r_step r) y with Some b => Ok b | None => Err end.
+Proof. intros I OK args r y H. apply range_has_lemma; [exact OK|exact (range_wf_of_range_ args r H)]. Qed.
+
+Theorem seq_has_is_membership :
+  forall start stop step x, step <> 0 ->
+    (seq_has start stop step x = true <-> exists i, 0 <= i /\ x = seq_at start step i /\ before_stop stop step x).
+Proof. exact seq_has_mem. Qed.
+
+(* range equality is equality of the denoted sequences *)
+Theorem range_equal_exact :
+  forall a1 r1 a2 r2, range_ a1 = Ok r1 -> range_ a2 = Ok r2 ->
+    (rangeEqual r1 r2 = true <->
+     (r_len r1 = r_len r2 /\ forall i, 0 <= i < r_len r1 ->
+        seq_at (r_start r1) (r_step r1) i = seq_at (r_start r2) (r_step r2) i)).
+Proof.
+  intros a1 r1 a2 r2 H1 H2. apply rangeEqual_exact; [exact (range_wf_of_range_ a1 r1 H1)|exact (range_wf_of_range_ a2 r2 H2)].
+Qed.
+
+(* enumerate(x, start): index i is start + i exactly, or the call fails (start not a machine int); after fix f63dc59 *)
+Theorem enumerate_exact :
+  forall I, impl_ok I -> forall start n,
+    enumerate_indices I start n =
+      if in_int64 start then Ok (map (fun i => start + Z.of_nat i) (seq 0 n)) else Err.
+Proof. exact enumerate_exact. Qed.
+
+(* slicing a range.  Full statement: for every constructed range r and slice
+   indices (s, e, k) produced by eval.go's slice(), range_slice r s e k is the
+   range of the selected elements or an error.  That is REFUTED on this tree
+   (known finding rng_slice:int64-overflow): Slice computes start + step*index
+   and step*k in int64 and has no error result. *)
+Theorem range_slice_refuted :
+  (exists r s e k r',
+      range_ [0; 9223372036854775807; 4611686018427387904] = Ok r /      slice_indices (r_len r) (Some 0) (Some 2) None = Ok (s, e, k) /      seq_len s e k = 2 /\ range_slice r s e k = Some r' /\ r_len r' = 0) /  (exists r s e k,
+      range_ [0; 10; 4611686018427387904] = Ok r /      slice_indices (r_len r) None None (Some 4) = Ok (s, e, k) /      range_slice r s e k = None).
+Proof. exact range_slice_refuted. Qed.
+
+(* What does hold: under the explicit no-overflow guard (the three quantities
+   Slice computes stay inside int64) the result is exactly the range of the
+   selected elements r[s], r[s+k], ...  Missing for the full statement: the
+   unguarded case, where the code neither fails nor is right (above). *)
+Theorem range_slice_exact_partial :
+  forall args r s e k, range_ args = Ok r -> k <> 0 ->
+    (forall j, 0 <= j < seq_len s e k -> 0 <= s + j * k < r_len r) ->
+    slice_no_overflow r s e k = true ->
+    exists r', range_slice r s e k = Some r' /               r_len r' = seq_len s e k /\ r_len r' <= max_int64 /               forall j, 0 <= j < r_len r' ->
+                 seq_at (r_start r') (r_step r') j = seq_at (r_start r) (r_step r) (s + j * k).
+Proof.
+  intros args r s e k H Hk Hin G.
+  destruct (range_slice_guarded r s e k (range_wf_of_range_ args r H) Hk Hin G) as (r' & E & W & L & A).
+  exists r'. split; [exact E|]. split; [exact L|]. split; [apply W|exact A].
+Qed.
+
+(* ------------------------------------------------------------------ floats *)
+
+(* int(f), for every binary64 value: truncation towards zero of the exact value
+   m * 2^e, canonical; NaN and infinities are rejected.  Covers both paths of
+   finiteFloatToInt: the int64 fast path (its guard keeps the hardware
+   conversion in range) and the big.Rat path (Euclidean division is truncation
+   there because every float beyond the int64 window is an integer). *)
+Theorem float_to_int_exact :
+  forall I, impl_ok I -> forall f, valid_float f = true ->
+    match NumberToInt I (NFloat f), spec_int_of_float f with
+    | Ok i, Some z => canonical I i = true /\ value I i = z
+    | Err, None => True
+    | _, _ => False
+    end.
+Proof. intros I OK f V. exact (NumberToInt_lemma I OK (NFloat f) V). Qed.
+
+(* math.floor / math.ceil return the exact integer for every float and every int *)
+Theorem math_floor_ceil_exact :
+  forall I, impl_ok I -> forall x, match x with NFloat f => valid_float f = true | NInt _ => True end ->
+    (match math_floor I x, (match x with NInt z => Some z | NFloat f => spec_floor f end) with
+     | Ok i, Some z => canonical I i = true /\ value I i = z
+     | Err, None => True
+     | _, _ => False
+     end) /    (match math_ceil I x, (match x with NInt z => Some z | NFloat f => spec_ceil f end) with
+     | Ok i, Some z => canonical I i = true /\ value I i = z
+     | Err, None => True
+     | _, _ => False
+     end).
+Proof. exact math_floor_ceil_lemma. Qed.
+
+(* comparisons between an int of any magnitude and any float (incl. NaN, +-inf,
+   subnormals) are exact: the int is compared with m * 2^e as integers, never
+   through a rounded conversion; both operand orders *)
+Theorem int_float_compare_exact :
+  forall I c (x : T I) f,
+    Compare_if I c x f = spec_compare_if c (value I x) f /    Compare_fi I c f x = spec_compare_fi c f (value I x).
+Proof. exact compare_int_float_lemma. Qed.
+
+(* Int.Float(): every path is the round-to-nearest-even conversion of the value,
+   the shortcut for more than 1024 bits returns the infinity of the right sign *)
+Theorem int_to_float_paths :
+  forall I, impl_ok I -> forall (x : T I), canonical I x = true ->
+    Int_Float I x = if 1024 <? bitlen (value I x) then S754_infinity (value I x <? 0) else Z_to_float (value I x).
+Proof. exact Int_Float_lemma. Qed.
+
+(* ------------------------------------------------------------------ text *)
+
+(* printing in any base 2..36 and reading back is the identity, for all z *)
+Theorem parse_print_int :
+  forall base z, 2 <= base <= 36 ->
+    parseInt (print_int base z) base = Some z /\ int_of_string (print_int base z) (Some base) = Some z.
+Proof. exact parse_print_lemma. Qed.
+
+Theorem parse_print_decimal_and_literals :
+  forall z,
+    (int_of_string (print_int 10 z) None = Some z /\ parseInt (print_int 10 z) 0 = Some z) /    (forall base, base = 2 \/ base = 8 \/ base = 16 ->
+       parseInt (print_prefixed base z) 0 = Some z /\ parseInt (print_prefixed base z) base = Some z).
+Proof. intros z. split; [exact (parse_print_decimal_lemma z)|]. intros base. exact (parse_prefixed_lemma base z). Qed.
+
+(* int(s, base) accepts exactly the strings the specification describes, with
+   the same value, for ALL byte strings and all bases (invalid bases rejected) *)
+Theorem parse_accepts_exactly_spec :
+  forall s base, int_of_string s base = spec_int_of_string s base.
+Proof. exact int_of_string_spec_lemma. Qed.
+
+(* Non-vacuity of the range / float / slice premises *)
+Example range_float_premises_hold :
+  let r := {| r_start := -9223372036854775808; r_stop := 9223372036854775807; r_step := 3; r_len := 6148914691236517206 |} in
+  let f := S754_finite false 6755399441055744 (-52) in   (* 1.5 *)
+  range_ [-9223372036854775808; 9223372036854775807; 3] = Ok r /\
+  range_getIndex r (-1) = Ok 9223372036854775807 /\
+  range_has union_impl r (NInt 9223372036854775807) = Ok true /\
+  valid_float f = true /\ range_has union_impl r (NFloat f) = Ok false /\
+  NumberToInt union_impl (NFloat f) = Ok (Small 1) /\
+  (exists q, range_ [0; 10; 2] = Ok q /\ slice_no_overflow q 1 4 2 = true /\ seq_len 1 4 2 = 2 /\ r_len q = 5 /\
+             range_slice q 1 4 2 = Some {| r_start := 2; r_stop := 8; r_step := 4; r_len := 2 |}).
+Proof.
+  vm_compute. repeat split.
+  exists {| r_start := 0; r_stop := 10; r_step := 2; r_len := 5 |}. repeat split.
+Qed.
